@@ -11,6 +11,7 @@ drop any op):
   am:R:NAME:S  pm:R:NAME:S    AddMessage / PrependMessage of a deep copy of register S
   r:R:NAME:IDX:T:VAL:OKADD    Replace<T>(okayToAdd, name, idx, val);  rm:R:NAME:IDX:S:OKADD ReplaceMessage
   x:R:NAME:IDX  xn:R:NAME     RemoveData / RemoveName;   rn:R:OLD:NEW  Rename;  cl:R  Clear;  cp:R:S  R = S
+  mf:R:NAME  mb:R:NAME        MoveNameToFront / MoveNameToBack;   cn:R:OLD:NEW  CopyName(old, same Message, new)
   u:R                         R = UnflattenFromBytes(Flatten(R))   (continue operating on a parsed Message)
   um:R:SEED                   R = UnflattenFromBytes(mutate(Flatten(R), SEED)) if that parses (head `g` only: malformed stream)
 Observed on register 0 (and 1 for the equality pair) after the script.
@@ -114,8 +115,14 @@ def gen_script(rng, nops, domain="m", maxreg=4):
             ops.append("rm:%d:%s:%d:%d:%d" % (r, hx(nm), rng.choice([0, 1, 2]), rng.randrange(maxreg), rng.randrange(2)))
         elif x < 0.90:
             ops.append("cp:%d:%d" % (rng.randrange(maxreg), rng.randrange(maxreg)))
-        elif x < 0.91:
+        elif x < 0.905:
             ops.append("cl:%d" % r)
+        elif x < 0.93:
+            nm, _ = name_type(r)
+            if rng.random() < 0.5:
+                ops.append("%s:%d:%s" % (rng.choice(["mf", "mb"]), r, hx(nm)))
+            else:
+                nm2, _ = name_type(r); ops.append("cn:%d:%s:%s" % (r, hx(nm), hx(nm2)))
         elif x < 0.96:
             ops.append("u:%d" % r)
         else:
@@ -156,6 +163,9 @@ def directed():
             [A(0), "a:0:%s:i:05000000" % hx(b"g"), "rn:0:%s:%s" % (n, hx(b"g"))],
             [A(0), A(1), "cp:1:0"], [A(0), A(1), "cp:1:0", "x:1:%s:1" % n], [A(0), "cp:1:0", "a:1:%s:%s:%s" % (n, t, vs[0]), "x:1:%s:1" % n],
             [A(0), A(1), X(0), "cp:1:0", "u:1"],
+            [A(0), "a:0:%s:i:05000000" % hx(b"g"), "mf:0:%s" % hx(b"g"), "mb:0:%s" % hx(b"g"), "mf:0:%s" % hx(b"zz")],
+            [A(0), A(1), "cn:0:%s:%s" % (n, hx(b"g")), "a:0:%s:%s:%s" % (hx(b"g"), t, vs[2]), X(0)],
+            [A(0), "a:0:%s:i:05000000" % hx(b"g"), "cn:0:%s:%s" % (n, hx(b"g")), "cn:0:%s:%s" % (n, n), "cn:0:%s:%s" % (hx(b"zz"), hx(b"zz"))],
         ]
         for s in seqs:
             out.append("m|" + ";".join(s))
